@@ -263,6 +263,7 @@ static void digest(const char* err, char* out, size_t cap) {
       if (strstr(p, "ERROR: ") && strstr(p, "ERROR: ") < p + n) keep = 1;
       else if (strstr(p, "runtime error") && strstr(p, "runtime error") < p + n) keep = 1;
       else if (strstr(p, "Assertion") && strstr(p, "Assertion") < p + n) keep = 1;
+      else if (strstr(p, "RETRYARGS:") == p) keep = 1;
       else if (strstr(p, "SUMMARY") && strstr(p, "SUMMARY") < p + n) keep = 1;
       else if (frames < 14 && strstr(p, "    #") == p) { keep = 1; frames++; }
       else if (strstr(p, "freed by") == p || strstr(p, "previously allocated") == p ||
